@@ -215,7 +215,7 @@ def evaluate_aq(case):
 
 
 # pathsplit / urlpathsplit
-PS_GRID = grid.Grid("pathsplit", [("path", urlgram.PATHS + ["/a/b/c/", "a/b", "a", "///", "/a b/c"]), ("host", ["a.com", "b.a.co.uk"]),
+PS_GRID = grid.Grid("pathsplit", [("path", urlgram.PATHS + ["/a/b/c/", "a/b", "a", "///", "/a b/c", "/ a/b /", "/a/ b/"]), ("host", ["a.com", "b.a.co.uk"]),
                                    ("scheme", ["http://", "", "//"]), ("query", ["", "?x=/y"]), ("fragment", ["", "#/z"])])
 
 
